@@ -90,7 +90,11 @@ Inductive act :=
 (* loaded.DeleteNodeMetric(name it was loaded under, cache) *)
 | ADelMetric (t : Z)
 (* Plugin.Filter (reads through getNodeInfo + RLock); does not change the cache *)
-| AFilter (t : Z) (nd : nodeobj) (p : pod).
+| AFilter (t : Z) (nd : nodeobj) (p : pod)
+(* two goroutines queue for the SAME nodeInfo's lock, having both passed the unlocked
+   [deleted] pre-check: t2's DeletePod gets the lock first, t's AddOrUpdatePod second (the
+   re-check of [deleted] under the lock decides) *)
+| ARace (t2 uid t now : Z) (p : pod).
 
 (* may thread t take the write lock of object o the way its register says? a creator already
    holds it; everybody else needs it free *)
@@ -166,6 +170,10 @@ Definition sstep (cfg : config) (s : cstate) (a : act) : cstate :=
   | ADelPod t uid => delete_from s t (ni_del_pod uid)
   | ADelMetric t => delete_from s t ni_del_metric
   | AFilter _ _ _ => s
+  | ARace t2 uid t now p =>
+    let s1 := delete_from s t2 (ni_del_pod uid) in
+    if terminated p || p_resv p then s1
+    else add_or_update s1 t (ni_add_pod (mk_pinfo cfg now p))
   end.
 
 Definition srun (cfg : config) (l : list act) : cstate := fold_left (sstep cfg) l cs_init.
